@@ -431,67 +431,98 @@ func runUnsat(c *Ctx) {
 	} else {
 		c.R.Func(core.FuncName(em))
 		rendered, flows := false, false
-		core.Instrs(em, func(in ssa.Instruction) {
-			cl, ok := in.(*ssa.Call)
-			if !ok {
-				return
+		type cand struct {
+			fn  *ssa.Function
+			env map[*ssa.Parameter]ssa.Value
+		}
+		cands := []cand{{em, nil}}
+		for _, ci := range core.Calls(em) {
+			if h := ci.Common().StaticCallee(); h != nil && p.InTarget(h) && h.Blocks != nil && h != em {
+				env := map[*ssa.Parameter]ssa.Value{}
+				for i, prm := range h.Params {
+					if i < len(ci.Common().Args) {
+						env[prm] = ci.Common().Args[i]
+					}
+				}
+				cands = append(cands, cand{h, env})
 			}
-			cal := cl.Common().StaticCallee()
-			if cal == nil || cal.Name() != "String" || core.NamedOf(cal.Signature.Recv().Type()) != "Value" {
-				return
+		}
+		for _, cd := range cands {
+			up := func(v ssa.Value) ssa.Value {
+				v = core.Strip(v)
+				if prm, ok := v.(*ssa.Parameter); ok {
+					if a, ok := cd.env[prm]; ok {
+						return core.Strip(a)
+					}
+				}
+				return v
 			}
-			// receiver is an element of e.Args
-			if ld, ok := cl.Common().Args[0].(*ssa.UnOp); ok {
-				if ia, ok := ld.X.(*ssa.IndexAddr); ok {
-					if fr, ok := core.AsFieldLoad(ia.X); ok && fr.Owner == "ErrArgumentUnsatisfied" && fr.Field == "Args" {
-						// loop must be unconditional over all elements
-						onlyLoop := true
-						for _, l := range core.Lits(core.Guards(cl.Block())) {
-							if !(l.Kind == "cmp" && l.Op == token.LSS) {
-								onlyLoop = false
-							}
+			core.Instrs(cd.fn, func(in ssa.Instruction) {
+				cl, ok := in.(*ssa.Call)
+				if !ok {
+					return
+				}
+				cal := cl.Common().StaticCallee()
+				if cal == nil || cal.Name() != "String" || cal.Signature.Recv() == nil || core.NamedOf(cal.Signature.Recv().Type()) != "Value" {
+					return
+				}
+				// receiver is an element of e.Args (possibly seen through the helper's slice parameter)
+				ld, ok := cl.Common().Args[0].(*ssa.UnOp)
+				if !ok {
+					return
+				}
+				ia, ok := ld.X.(*ssa.IndexAddr)
+				if !ok {
+					return
+				}
+				fr, ok := core.AsFieldLoad(up(ia.X))
+				if !ok || fr.Owner != "ErrArgumentUnsatisfied" || fr.Field != "Args" {
+					return
+				}
+				onlyLoop := true
+				for _, l := range core.Lits(core.Guards(cl.Block())) {
+					if !core.IsLoopBound(l) {
+						onlyLoop = false
+					}
+				}
+				rendered = onlyLoop
+				// its text goes (via Fprintf) into a buffer whose String() reaches the return value of Error
+				for _, u := range core.Users(cl) {
+					st, ok := u.(*ssa.Store)
+					if !ok {
+						continue
+					}
+					ia2, ok := st.Addr.(*ssa.IndexAddr)
+					if !ok {
+						continue
+					}
+					al, _ := ia2.X.(*ssa.Alloc)
+					if al == nil {
+						continue
+					}
+					for _, ar := range *al.Referrers() {
+						sl, ok := ar.(*ssa.Slice)
+						if !ok {
+							continue
 						}
-						rendered = onlyLoop
-						// its text goes (via Fprintf) into a buffer whose String() reaches the return value
-						for _, u := range core.Users(cl) {
-							st, ok := u.(*ssa.Store)
-							if !ok {
+						for _, su := range *sl.Referrers() {
+							fp, ok := su.(*ssa.Call)
+							if !ok || core.CalleeName(fp.Common()) != "fmt.Fprintf" {
 								continue
 							}
-							ia2, ok := st.Addr.(*ssa.IndexAddr)
-							if !ok {
-								continue
-							}
-							al, _ := ia2.X.(*ssa.Alloc)
-							if al == nil {
-								continue
-							}
-							for _, ar := range *al.Referrers() {
-								sl, ok := ar.(*ssa.Slice)
-								if !ok {
-									continue
-								}
-								for _, su := range *sl.Referrers() {
-									fp, ok := su.(*ssa.Call)
-									if !ok || core.CalleeName(fp.Common()) != "fmt.Fprintf" {
-										continue
+							buf := up(fp.Common().Args[0])
+							core.Instrs(em, func(in2 ssa.Instruction) {
+								if sc, ok := in2.(*ssa.Call); ok && strings.HasSuffix(core.CalleeName(sc.Common()), "bytes.Buffer).String") && core.Strip(sc.Common().Args[0]) == buf {
+									if reachesReturn(sc, em) {
+										flows = true
 									}
-									buf := core.Strip(fp.Common().Args[0])
-									// buf.String() somewhere flows to return
-									core.Instrs(em, func(in2 ssa.Instruction) {
-										if sc, ok := in2.(*ssa.Call); ok && strings.HasSuffix(core.CalleeName(sc.Common()), "bytes.Buffer).String") && core.Strip(sc.Common().Args[0]) == buf {
-											if reachesReturn(sc, em) {
-												flows = true
-											}
-										}
-									})
 								}
-							}
+							})
 						}
 					}
 				}
-			}
-		})
+			})
+		}
 		c.R.Add("UNSAT-U6", "Error|renders-every-missing-argument", core.FuncName(em), p.Pos(em.Pos()), rendered, "the message renders every element of the missing-argument list", fmt.Sprintf("ok=%v", rendered))
 		c.R.Add("UNSAT-U6", "Error|rendering-reaches-message", core.FuncName(em), p.Pos(em.Pos()), flows, "the rendered missing arguments flow into the returned message", fmt.Sprintf("ok=%v", flows))
 	}
